@@ -970,3 +970,67 @@ def rule_extracted_elements_used(ctx, rep: Report, rid="Q7"):
                         f"member's documentation never appears in the binding", f"{ci.mod.rel}:{st.lineno}", nontrivial=False)
     if total < 4:
         raise AnalysisError(f"{rep.prop}/{rid}: only {total} element look-ups found in get_formatted_docstring and its helpers")
+
+
+def rule_counter_key_identity(ctx, rep: Report, rid="Q8"):
+    """The overload counter is keyed by (class, method, argument names) *as requested by the binding*: every value
+    that enters the key in determine_documenting_index is, at each call of that method, the caller's own unmodified
+    parameter, all the way up to extract_docstring's parameters.  A key component that was normalised on the way
+    (template arguments stripped, case folded ...) makes everything the normalisation maps together share one
+    counter: the bindings of a second instantiation of a class template continue where the first one stopped and get
+    another overload's text or none."""
+    prog = ctx.prog
+    ci = prog.cls("XMLDocParser")
+    det = prog.method("XMLDocParser", "determine_documenting_index")
+    dps = func_params(det)
+    key_stores = [st for st in walk_no_nested(det) if isinstance(st, (ast.Assign, ast.AugAssign)) and any(
+        isinstance(t, ast.Subscript) and unparse(t.value) == "self._memory" for t in (st.targets if isinstance(st, ast.Assign) else [st.target]))]
+    comps: Set[str] = set()
+    for st in key_stores:
+        for t in (st.targets if isinstance(st, ast.Assign) else [st.target]):
+            if isinstance(t, ast.Subscript):
+                k = inline_locals(det, t.slice)
+                comps |= {x.id for x in ast.walk(k) if isinstance(x, ast.Name) and x.id in dps}
+    if len(comps) < 3:
+        raise AnalysisError(f"{rep.prop}/{rid}: the counter key is built from {sorted(comps)} only (class, method and argument names expected)")
+    n = 0
+
+    def rebound(fn, name) -> List[int]:
+        return [x.lineno for x in ast.walk(fn) if isinstance(x, ast.Name) and x.id == name and isinstance(x.ctx, ast.Store)]
+    # direct re-binding inside the method itself
+    for cname in sorted(comps):
+        rb = rebound(det, cname)
+        n += 1
+        rep.add(rid, f"counter key:determine_documenting_index:`{cname}` enters the key as received", not rb,
+                f"re-bound at line(s) {rb} before the key is built", f"{ci.mod.rel}:{det.lineno}")
+    work = [(det, sorted(comps))]
+    seen = set()
+    while work:
+        callee, names = work.pop()
+        for mname, fn in sorted(ci.methods.items()):
+            for c in walk_no_nested(fn):
+                if isinstance(c, ast.Call) and isinstance(c.func, ast.Attribute) and unparse(c.func.value) == "self" and c.func.attr == callee.name:
+                    try:
+                        b = bind_call(callee, c, drop_self=True)
+                    except AnalysisError:
+                        continue
+                    up = []
+                    for nm in names:
+                        av = b.get(nm)
+                        if av is None:
+                            continue
+                        n += 1
+                        fps = func_params(fn)
+                        ok = isinstance(av, ast.Name) and av.id in fps and not rebound(fn, av.id)
+                        rep.add(rid, f"counter key:{mname}->{callee.name}:`{nm}` is the caller's own parameter, unmodified", ok,
+                                f"`{unparse(av)[:50]}` is passed for `{nm}`" + (f"; `{av.id}` is re-bound at line(s) {rebound(fn, av.id)} of {mname}"
+                                                                               if isinstance(av, ast.Name) else "") +
+                                ": the counter is then shared by every request that the modification maps to the same value (all instantiations "
+                                "of a class template, say)", f"{ci.mod.rel}:{c.lineno}")
+                        if ok:
+                            up.append(av.id)
+                    if up and (mname, tuple(up)) not in seen:
+                        seen.add((mname, tuple(up)))
+                        work.append((fn, up))
+    if n < 6:
+        raise AnalysisError(f"{rep.prop}/{rid}: only {n} key components traced")
